@@ -116,8 +116,13 @@ static void mode_data() {
         double sin_ = sum_all(din, N), sabs = sum_abs(din, N);
         if (sabs == 0) { M.cases--; continue; }
         float* dout = b.out->getData();
-        std::fill(dout, dout + N, 7.0f);
+        std::fill(dout, dout + N, 7.0f);      // (cells the map does not write keep this value and show up in the sum)
+        // one application in sixteen happens while a stop request is pending (Ctrl+C sets Display::abort; the program finishes the step
+        // in progress): a transport step conserves charge whatever that flag says
+        const bool pending = ((c / K_NKINDS) % 8 == 3);
+        if (pending) { Display::abort = true; M.ev("applications_with_stop_request_pending"); }
         b.map->apply();
+        if (pending) Display::abort = false;
         double sout = sum_all(dout, N);
         // support must stay clear of the border after the step too (generator guarantee; verify)
         double edge = 0;
@@ -145,7 +150,9 @@ static void mode_data() {
         M.ev(std::string("applications.") + KNAME[s.kind]);
         M.ev("map_applications");
         if (edge != 0) M.ev("generator_edge_contact");   // should stay 0: else the case was not 'interior'
-        if (!ok && edge == 0) {
+        // (on the unchanged code the output never touches the border - the generator keeps ceil(max|offset|)+3 cells clear - so charge that
+        //  disagrees *and* sits on the border afterwards, e.g. cells the map never wrote, is the map's doing, not the generator's)
+        if (!ok) {
             vh::J d; d.s("map", KNAME[s.kind]).i("n", s.n).i("nb", s.nb).i("order", s.it).n("sum_in", sin_).n("sum_out", sout)
                 .n("sum_abs", sabs).n("tol", tol).n("allowed_fp_defect", allowed).i("margin", m).s("spec", s.descr());
             M.violation(std::string("C01:charge:") + KNAME[s.kind] + (s.nb > 1 ? ":multibunch" : ""),
